@@ -3,8 +3,8 @@ import os
 
 from lib import vlib
 
-QUICK = ["framing", "limit", "seq", "sizes", "header", "bufsize"]
-THOROUGH = ["framing", "framing4", "limit", "seq", "sizes", "header", "bufsize", "bufsizes"]
+QUICK = ["framing", "limit", "seq", "sizes", "header", "bufsize", "pmd"]
+THOROUGH = ["framing", "framing4", "limit", "seq", "sizes", "header", "header1", "bufsize", "bufsizes", "pmd"]
 
 
 def run(ctx):
@@ -12,7 +12,8 @@ def run(ctx):
     ctx.rule = ("TLC enumerates every sequence of frames an arbitrary peer can send within each family's alphabet and depth (framing: every "
                 "rule of RFC 6455 section 5 one factor at a time, depth 3; limit: message sizes relative to the read limit incl. 2^63-1 / 2^63 "
                 "/ 2^64-1 lengths, depth 3; seq: opcode x FIN, depth 4; sizes: 7/16/64-bit forms with real payloads; header: the full product "
-                "opcode x FIN x RSV x mask x length class as first frame; bufsize: the configured read buffer size {default, 1, 2, 13, 14, 15, 64, 124, "
+                "opcode x FIN x RSV (all 8 combinations) x mask x length class as first frame, with and without permessage-deflate negotiated; pmd: compressed "
+                "and uncompressed messages, fragments, control frames and every misuse of RSV1/RSV2/RSV3 with and without the extension, depth 2 / 3; bufsize: the configured read buffer size {default, 1, 2, 13, 14, 15, 64, 124, "
                 "125, 126, 1024} x control frames of every legal payload size around it x data frames around it, depth 2; thorough: depth 3, and a larger alphabet at depth 2) for both roles, each with the reference receiver's outcome after every "
                 "step; every behaviour is rendered to bytes from the specification's layout, fed to a real websocket.Conn, ended after the last "
                 "frame and at offsets inside the last frame (prefixes are behaviours too, so this is every frame of every behaviour), under 2-4 "
@@ -21,7 +22,9 @@ def run(ctx):
                 "distinct = distinct behaviour")
     ctx.exhaustive = (t == "quick")   # thorough adds thousands of random long behaviours (TLC simulation)
     ctx.assumptions += [
-        "compression not negotiated (RSV1 is a reserved bit); with compression negotiated nothing is judged",
+        "permessage-deflate negotiated or not is a dimension of the header (single frame, full RSV product), pmd and sim families; the other "
+        "families run without it. A compressed message is a DEFLATE stream of stored blocks made by the replayer (1 or >= 6 octets on the wire); "
+        "what a receiver does with octets that are not a DEFLATE stream is inflation, not framing, and is not judged; the read limit counts octets on the wire",
         "frames use the minimal length form (RFC 6455 5.2 obliges the sender; what a receiver does with other forms is not judged)",
         "text payloads are not checked for UTF-8; close bodies of one byte and close code 1014 are not generated",
         "where a frame breaks a rule and also exceeds the limit, or has the top bit of a 64-bit length set, any of the applicable outcomes is accepted; "
@@ -32,27 +35,35 @@ def run(ctx):
         "read buffer sizes: the 11 listed, passed to the constructor the Dialer and the Upgrader use (hook VerifNewConn); the server role is also "
         "made by the real Upgrader from a hijacked connection whose bufio.Reader has 16/64/255/256/300/4096 bytes; write buffer sizes are not varied here (C13)",
     ]
+    def tlc(*a, **k):   # shared machine: every TLC run with a heap cap
+        k.setdefault("jopts", ["-Xmx3g"])
+        return ctx.tlc(*a, **k)
     ctx.sany("ws", "WsReader")
     ctx.sany("ws", "Gen_WsReader")
     # the property on the specification itself
-    ctx.tlc("ws", "MC_WsReader", "MC_WsReader.cfg", coverage=(t == "thorough"))
-    ctx.tlc("ws", "MC_WsReader", "MC_WsReader_deep.cfg" if t == "quick" else "MC_WsReader_deep.thorough.cfg")
+    tlc("ws", "MC_WsReader", "MC_WsReader.cfg", coverage=(t == "thorough"))
+    tlc("ws", "MC_WsReader", "MC_WsReader_deep.cfg" if t == "quick" else "MC_WsReader_deep.thorough.cfg")
     # non-vacuity: the named deviations violate the invariants
-    ctx.tlc("ws", "MC_WsReader", "MC_WsReader_topbit.cfg", expect_violation="NoTopBitFrame", count_states=False)
-    ctx.tlc("ws", "MC_WsReader", "MC_WsReader_perframe.cfg", expect_violation="LimitOk", count_states=False)
+    tlc("ws", "MC_WsReader", "MC_WsReader_topbit.cfg", expect_violation="NoTopBitFrame", count_states=False)
+    tlc("ws", "MC_WsReader", "MC_WsReader_perframe.cfg", expect_violation="LimitOk", count_states=False)
     if t == "thorough":
-        ctx.tlc("ws", "MC_WsReader", "MC_WsReader_pongempty.cfg", expect_violation="PongOk", count_states=False)
-        ctx.tlc("ws", "MC_WsReader", "MC_WsReader_ctlbuf.cfg", expect_violation="NoSpontaneousFailure", count_states=False)
+        tlc("ws", "MC_WsReader", "MC_WsReader_pongempty.cfg", expect_violation="PongOk", count_states=False)
+        tlc("ws", "MC_WsReader", "MC_WsReader_ctlbuf.cfg", expect_violation="NoSpontaneousFailure", count_states=False)
+    # configuration that matters: permessage-deflate negotiated or not (RSV1 has a meaning on the first frame of a data
+    # message, nowhere else; RSV2/RSV3 never); deviations: RSV1 shadows RSV2/RSV3, RSV1 ignored on control/continuation frames
+    tlc("ws", "MC_WsReader", "MC_WsReader_pmd.cfg")
+    if t == "thorough":
+        tlc("ws", "MC_WsReader", "MC_WsReader_rsvshadow.cfg", expect_violation="ReservedBitsOk", count_states=False)
+        tlc("ws", "MC_WsReader", "MC_WsReader_rsvanywhere.cfg", expect_violation="ReservedBitsOk", count_states=False)
     # configuration independence: two receivers in lockstep that differ in the read buffer size only agree on everything
     # observable; with the deviation control-needs-buffer they do not
-    ctx.tlc("ws", "MC_WsReaderBuf", "MC_WsReaderBuf.cfg" if t == "quick" else "MC_WsReaderBuf.thorough.cfg")
-    ctx.tlc("ws", "MC_WsReaderBuf", "MC_WsReaderBuf_ctlbuf.cfg", expect_violation="BufferBlind", count_states=False)
+    tlc("ws", "MC_WsReaderBuf", "MC_WsReaderBuf.cfg" if t == "quick" else "MC_WsReaderBuf.thorough.cfg")
+    tlc("ws", "MC_WsReaderBuf", "MC_WsReaderBuf_ctlbuf.cfg", expect_violation="BufferBlind", count_states=False)
     cases = os.path.join(ctx.out, "cases.ndjson")
     for f in (QUICK if t == "quick" else THOROUGH):
-        ctx.tlc("ws", "Gen_WsReader", "Gen_WsReader_%s.%s.cfg" % (f, t), cases_to=cases, timeout=1500, count_states=False,
-                jopts=(["-Xmx4g"] if f.startswith("bufsize") else None))
+        tlc("ws", "Gen_WsReader", "Gen_WsReader_%s.%s.cfg" % (f, t), cases_to=cases, timeout=1500, count_states=False)
     # random long behaviours of a mostly conformant peer (one behaviour per trace, emitted when the stream ends)
-    ctx.tlc("ws", "Gen_WsReader", "Gen_WsReader_sim.cfg", cases_to=cases, simulate=(120 if t == "quick" else 4000), depth=40,
+    tlc("ws", "Gen_WsReader", "Gen_WsReader_sim.cfg", cases_to=cases, simulate=(120 if t == "quick" else 4000), depth=40,
             workers=1, timeout=900)
     res = ctx.replay("reader", cases, timeout=3000)
     fails = ctx.judge("reader", cases, res)
@@ -60,7 +71,7 @@ def run(ctx):
     # binding self-test: behaviours generated from a specification with two rules flipped (top-bit lengths accepted as empty
     # frames, pongs without payload) must be rejected by the replay of the real library; otherwise nothing binds spec and code
     st = os.path.join(ctx.out, "selftest.ndjson")
-    ctx.tlc("ws", "Gen_WsReader", "Gen_WsReader_selftest.cfg", cases_to=st, count_states=False)
+    tlc("ws", "Gen_WsReader", "Gen_WsReader_selftest.cfg", cases_to=st, count_states=False)
     sres = ctx.replay("reader", st)
     rejected = sum(1 for r in sres if not r["ok"])
     ctx.notes["selftest"] = {"cases": len(sres), "rejected": rejected}
